@@ -2,6 +2,7 @@ package props
 
 import (
 	"encoding/json"
+	"errors"
 	"fmt"
 	"io"
 	"os"
@@ -186,6 +187,7 @@ type c19Exp struct {
 	err   string // expected error prefix ("" = no error)
 	unk   bool   // nothing is asserted about this op
 	moved bool   // the op consumes input
+	fail  bool   // the op must fail (no answer, no error): a peek whose bound argument is not what comes next
 }
 
 func (m *c19Model) runeAt(p int) (string, int) {
@@ -221,6 +223,17 @@ func (m *c19Model) pastCheck(eofVal string, consume bool) (c19Exp, bool) {
 func (m *c19Model) step(op c19Op) c19Exp {
 	if m.desync {
 		return c19Exp{unk: true}
+	}
+	if strings.HasPrefix(op.Op, "mismatch:") {
+		if m.past {
+			return c19Exp{unk: true} // in state past the eof_action decides first; not modelled for this variant
+		}
+		if m.text && m.pos < m.avail {
+			if r, _ := utf8.DecodeRune(m.src.Bytes[m.pos:m.avail]); r == utf8.RuneError {
+				return c19Exp{err: "error(representation_error(character)"}
+			}
+		}
+		return c19Exp{fail: true}
 	}
 	if strings.HasPrefix(op.Op, "wrong:") {
 		if m.past && m.eof == "reset" {
@@ -405,6 +418,9 @@ func c19Gen(r *kit.Run) (*c19Scenario, *c19Source) {
 		b := make([]byte, n)
 		for i := range b {
 			b[i] = byte(g.Choose(256))
+			if b[i] == 7 {
+				b[i] = 8 // 7 is reserved for "a byte that does not come next"
+			}
 		}
 		src = &c19Source{Bytes: b, clean: make([]bool, n+1)}
 	}
@@ -476,6 +492,9 @@ func c19Gen(r *kit.Run) (*c19Scenario, *c19Source) {
 			choices = append(choices, "skip", "skip", "skip")
 		}
 		op.Op = choices[g.Choose(len(choices))]
+		if g.Choose(20) == 0 && (strings.HasPrefix(op.Op, "peek_char") || strings.HasPrefix(op.Op, "peek_byte")) {
+			op.Op = "mismatch:" + op.Op // the argument is bound to something that does not come next: fails, consumes nothing
+		}
 		if g.Choose(25) == 0 {
 			// an operation of the other stream type: it must be refused and leave the cursor and the end-of-stream state alone
 			if sc.Type == "text" {
@@ -544,6 +563,17 @@ func c19OpText(op c19Op, mode string, v string, text bool) string {
 			return fmt.Sprintf("%s(%s)", op.Op[6:], v)
 		}
 		return fmt.Sprintf("%s(%s, %s)", op.Op[6:], s, v)
+	}
+	if strings.HasPrefix(op.Op, "mismatch:") {
+		// a character / byte that never occurs in generated sources
+		arg := "'ж'"
+		if strings.HasSuffix(op.Op, "byte") {
+			arg = "7" // binary sources are generated without the byte 7 when this variant is used
+		}
+		if mode == "W" {
+			return fmt.Sprintf("%s = %s, %s(%s)", v, arg, op.Op[9:], v)
+		}
+		return fmt.Sprintf("%s = %s, %s(%s, %s)", v, arg, op.Op[9:], s, v)
 	}
 	switch op.Op {
 	case "get_char", "peek_char", "get_code", "peek_code", "get_byte", "peek_byte", "read":
@@ -729,6 +759,10 @@ func (c19) Exec(r *kit.Run) {
 						if e.unk {
 							continue
 						}
+						if e.fail {
+							r.Fail("lost-or-repeated", c19Sig(sc, ops, n, "no-failure"), "%s succeeded with %s although its argument was bound to something that does not come next (source %q, cursor %d)", c19Desc(sc, ops, n), obs[n], sc.Source, save.pos)
+							return
+						}
 						if e.err != "" {
 							r.Fail("wrong-eof", c19Sig(sc, ops, n, "no-error"), "%s delivered %s where the model expects %s... (source %q, cursor %d)", c19Desc(sc, ops, n), obs[n], e.err, sc.Source, save.pos)
 							return
@@ -761,6 +795,9 @@ func (c19) Exec(r *kit.Run) {
 						got = "failure"
 					}
 					if e.err != "" && strings.HasPrefix(got, e.err) {
+						break
+					}
+					if e.fail && errors.Is(err, prolog.ErrNoSolutions) {
 						break
 					}
 					if faulted && err != nil {
@@ -838,6 +875,8 @@ func c19Sig(sc *c19Scenario, ops []c19Op, n int, what string) string {
 		switch {
 		case strings.HasPrefix(op, "wrong:"):
 			return "wrong-type"
+		case strings.HasPrefix(op, "mismatch:"):
+			return "peek-mismatch"
 		case strings.HasPrefix(op, "peek"):
 			return "peek"
 		case strings.HasPrefix(op, "get"), op == "skip":
